@@ -256,6 +256,12 @@ def _(vm, a, ci):
     if isinstance(t0, (BStr, SymStr)) and isinstance(a[1], Adt) and a[1].ty.startswith('Range'):      # &[u8] view of text, sliced by a byte range
         from .std_str import slice_str
         return slice_str(vm, t0, a[1])
+    if isinstance(t0, BStr) and isinstance(a[1], int):          # one byte of the &[u8] view of text
+        from .stdcheck import P as _P
+        from .std_iter import drain
+        bs = drain(vm, _P(vm, '<impl str>::bytes', t0))
+        if not 0 <= a[1] < len(bs): raise PanicEdge('panic', f'index out of bounds: the len is {len(bs)} but the index is {a[1]}')
+        return Ref(Cell(bs[a[1]]))
     s = slice_of(vm, a[0]); i = a[1]
     n = s.end - s.start
     if isinstance(i, Adt) and i.ty.startswith('Range'):
@@ -283,6 +289,14 @@ def _(vm, a, ci):
             from .std_iter import drain
             return It('list', [Ref(Cell(b)) for b in drain(vm, _P(vm, '<impl str>::bytes', s))], 0)      # slice::Iter yields references
         if m == 'to_vec': return s
+        if m in ('get', 'first', 'last'):
+            from .stdcheck import P as _P
+            from .std_iter import drain
+            bs = drain(vm, _P(vm, '<impl str>::bytes', s))
+            i = a[1] if m == 'get' else (0 if m == 'first' else len(bs) - 1)
+            if isinstance(i, Adt): return some(slice_str_bytes(vm, s, i)) if True else NONE()
+            if not isinstance(i, int): raise Unmodelled('byte view of text indexed by a symbolic position')
+            return some(Ref(Cell(bs[i]))) if 0 <= i < len(bs) else NONE()
         if m == 'as_ptr': return Ref(_bufcell(s.buf), (), s.start)
         if m == 'as_ptr_range': return Adt('Range', 0, [Ref(_bufcell(s.buf), (), s.start), Ref(_bufcell(s.buf), (), s.end)])
         raise Unmodelled('byte-slice method on str: ' + m)
@@ -399,6 +413,11 @@ def key_eq(vm, kt, k1, k2, borrowed_ty=None):
 
 
 def _as_ref(v): return v if isinstance(v, Ref) else Ref(Cell(v))
+
+
+def slice_str_bytes(vm, s, r):
+    from .std_str import slice_str
+    return slice_str(vm, s, r)
 
 
 def hmap_find(vm, hm, kt, key, borrowed_ty=None):
